@@ -14,8 +14,20 @@ CURRENT_TIME = '__USIM_STATE__.loop.time'
 
 
 # --------------------------------------------------------------------- def-use
+_LOCAL_VALUES = {}
+
+
 def local_values(fn: FunctionInfo, name: str) -> List[ast.expr]:
     """all value expressions assigned to the local ``name`` in ``fn`` (plain assigns)"""
+    key = (id(fn.node), name)
+    found = _LOCAL_VALUES.get(key)
+    if found is None:
+        found = _local_values(fn, name)
+        _LOCAL_VALUES[key] = found
+    return found
+
+
+def _local_values(fn: FunctionInfo, name: str) -> List[ast.expr]:
     result = []
     for node in _walk_own(fn.node):
         if isinstance(node, ast.Assign):
@@ -78,9 +90,18 @@ def is_current_activity(expr, fn: FunctionInfo) -> bool:
     return normalise_state_aliases(expand_alias(expr, fn)) == CURRENT_ACTIVITY
 
 
+_CLOCK = {}
+
+
 def is_current_time(expr, fn: FunctionInfo) -> bool:
-    text = normalise_state_aliases(expand_alias(expr, fn))
-    return text in (CURRENT_TIME, 'time.now', 'self.now')
+    key = (id(expr), id(fn.node))
+    found = _CLOCK.get(key)
+    if found is None:
+        text = normalise_state_aliases(expand_alias(expr, fn))
+        found = text in (CURRENT_TIME, 'time.now', 'self.now')
+        _CLOCK[key] = (found, expr)  # keep the node alive: ids are reused otherwise
+        return found
+    return found[0]
 
 
 # ----------------------------------------------------------- program queries
@@ -368,11 +389,8 @@ def value_expr(path: Path, index: int, expr, depth: int = 6, keep_clock: bool = 
                 return node
             if isinstance(store.node, ast.Name) is False:
                 return node
-            # tuple unpacking `a, b = f()` stores with the whole right hand side
-            stmt = store.data.get('stmt')
-            if isinstance(stmt, ast.Assign) and not any(
-                    isinstance(t, ast.Name) and t.id == node.id for t in stmt.targets):
-                return node
+            # tuple unpacking `a, b = f()` carries no per-element value (value is None
+            # above); `a, b = x, y` was split element-wise by the interpreter
             if keep_clock and fn is not None and is_current_time(value, store.fn):
                 return node
             return value_expr(path, pos, value, depth - 1, keep_clock, keep)
@@ -381,8 +399,19 @@ def value_expr(path: Path, index: int, expr, depth: int = 6, keep_clock: bool = 
     return tree
 
 
+_VALUE_TEXT = {}
+
+
 def value_text(path: Path, index: int, expr, **kw) -> str:
-    return normalise_state_aliases(ast.unparse(value_expr(path, index, expr, **kw)))
+    key = (id(path), index, id(expr), tuple(sorted(kw.items())) if kw else None)
+    found = _VALUE_TEXT.get(key)
+    if found is not None and found[1] is path and found[2] is expr:
+        return found[0]
+    text = normalise_state_aliases(ast.unparse(value_expr(path, index, expr, **kw)))
+    if len(_VALUE_TEXT) > 200000:
+        _VALUE_TEXT.clear()
+    _VALUE_TEXT[key] = (text, path, expr)
+    return text
 
 
 def event_index(path: Path, event: Event) -> int:
